@@ -833,6 +833,32 @@ Definition dataset_matches (exact : bool) (yx : coords) (ds : dataset) (o : otre
   && forallb (fun b => let sl := map (fun ls => get (snd ls) b) ds in
                        negb (judged b sl) || var_matches exact n b sl (o_vars o)) all_buckets.
 
+(* an integer image initialised in SOME steps only, the last one included.  Every concatenation after a step without
+   the image gives a float variable (NaN slices); the restoration of run_pipeline (#652) must bring the variable back
+   to the image's unsigned type.  With one dtype in all initialised steps the variable has that dtype and the
+   initialised slices are what the detector held (integers below 2^53 pass through float64 unchanged); the slices
+   of the steps without an image come from casting NaN: not judged.  (Image missing at the LAST step: the variable
+   stays float64 -- there is no image whose type it could keep: not judged.) *)
+Definition image_restored (ds : dataset) (o : otree) : bool :=
+  let sl := map (fun ls => get (snd ls) Image) ds in
+  let n := List.length ds in
+  if existsb is_none sl && negb (is_none (last sl None)) then
+    match find_var Image (o_vars o), first_some sl with
+    | Some v, Some a0 =>
+        let k := List.length (a_vals a0) in
+        is_unsigned (ov_dt v)
+        && (negb (forallb (fun s => match s with None => true | Some a => dtype_eqb (a_dt a) (a_dt a0) end) sl)
+            || (dtype_eqb (ov_dt v) (a_dt a0)
+                && zlist_eqb (ov_shape v) (Z.of_nat n :: a_shape a0)
+                && (List.length (ov_vals v) =? n * k)%nat
+                && forallb (fun p => match fst p with
+                                     | None => true
+                                     | Some a => zlist_eqb (a_shape a) (a_shape a0) && zlist_eqb (a_vals a) (snd p)
+                                     end) (combine sl (chunks k n (ov_vals v)))))
+    | _, _ => false
+    end
+  else true.
+
 Fixpoint capture_eqb (a b : capture) : bool :=
   match a, b with
   | [], [] => true
@@ -1043,6 +1069,7 @@ Definition spec_clauses (k : case) : list Z :=
       let hier := k_hier k || negb (payload_is_empty (k_scene_seen k)) in
       (if zlist_eqb (map fst (k_snaps k)) want_labels
           && dataset_matches false (range0 (k_rows k), range0 (k_cols k)) (k_snaps k) o
+          && image_restored (k_snaps k) o
           && wavelengths_ok k o then [] else [2])
       ++ (if String.eqb (o_bucket_path o) (if hier then "/bucket" else "/")
              && string_list_eqb (o_children o)
